@@ -72,6 +72,7 @@ MCNext == \/ BuildFailCodec /\ Mark(1, "BuildFailCodec")
           \/ ClassicFallback /\ Mark(10, "ClassicFallback")
           \/ Deliver /\ Mark(11, "Deliver")
 
+NegBetWidth == "fsize"
 \* Negative controls (cfg MC_MpqBuild_neg): invariants that MUST be violated on the as-is model -- they state the
 \* absence of the named deviations.  The check fails stage A if TLC does not find the counterexamples.
 NegNoFlagDeviation == \A j \in 1..Len(vblocks) : ~DevSectoredNoCompressFlag(vblocks[j])
